@@ -46,7 +46,11 @@ RULE = ('cases = corpus + random requests (PATH_INFO, QUERY_STRING, Host, X-Forw
         'non-ASCII character, or a primitive case with such a character, or a sequence of 2-3 requests on ONE application '
         'object (same URL asked as HTML then JSON, JSON then HTML, other query strings/hosts/kinds; every response must equal the '
         'model\'s stateless answer and the answer of a fresh application) in which both formats are requested; distinct by '
-        '(kind, format, debug, request parts)')
+        '(kind, format, debug, request parts). Round-4 dimensions, drawn at random on every kind: custom @error handlers that '
+        'delegate to default_error_handler, request properties read before routing, debug given by constructor / setup() / '
+        'attribute and switched between the requests of a sequence, route hooks, X-Script-Name, app_name_header, domain_map, '
+        'missing environ keys, https/443, HEAD, an exception whose repr() raises, ordinary traffic (13 output types) and a '
+        'second application inside sequences')
 TRUSTED = [
     'section variable isprintable (Unicode table behind str.isprintable, consulted by repr for code points >= 128): '
     'arbitrary in every theorem; in the correspondence the harness supplies the non-printable code points of each case',
@@ -64,6 +68,52 @@ ASSUMPTIONS = [
     'framework-generated errors only: bodies/status of application-raised HTTPError and custom error handlers are the '
     'application\'s responsibility',
     'environ strings are latin-1 decoded bytes (WSGI), so request.url never contains a lone surrogate',
+]
+
+# round-4 audit: everything of the anchored code that can influence status / Content-Type / body of a framework
+# error response, and the case kind or option that exercises it
+API_SURFACE = [
+    ('error_render.render(err_resp, url, debug)', 'covered by page/seq (every kind), debug on and off'),
+    ('error_render.render: unprintable exception (repr raises)', 'covered by page crash + badrepr (debug on)'),
+    ('error_render._html_lns (module-level template cache)', 'covered: first HTML page of the run fills it, every later page '
+     'and every application (seq napps=2) reads it; the fresh-application comparison in seq would show a stale entry'),
+    ('error_render.render: <style> block copied without formatting', 'covered by every HTML page (Gen.error_template has '
+     'the block as a literal; str.format on it would raise KeyError -> last-resort page -> disagreement)'),
+    ('error.html fields e.status / e.body / url / exception / traceback', 'covered by page (model fills Gen.error_template)'),
+    ('Ombott.default_error_handler(res)', 'covered by page/seq; called directly by _cast (loops kind) and through error_handlers'),
+    ('Ombott.error(code) handlers that call default_error_handler', "covered by via='custom'"),
+    ('Ombott.error(code) handlers that raise', 'covered by crit errhandler / errhandler400'),
+    ('Ombott.error(404, rule) partial hooks', "covered as ordinary traffic (seq noise kind 'sub404', hooks=True); their output is "
+     "the application's"),
+    ('Ombott.on_route hooks on the 404 / handler path', 'covered by hooks=True'),
+    ('Ombott.__init__(config) debug', "covered by debug_via='ctor'"),
+    ('Ombott.setup(config) debug', "covered by debug_via='setup' and by seq steps that switch debug on the live application"),
+    ('app.config.debug assignment', "covered by debug_via='attr'"),
+    ('config.catchall=False', 'excluded: the exception propagates to the server, no response is produced'),
+    ('KeyboardInterrupt / SystemExit / MemoryError re-raise (_handle, _cast, wsgi)', 'excluded: no response is produced'),
+    ('config.errors_map (default)', 'covered by map0/map1/map2; all three entries through Gen.errors_map'),
+    ('config.errors_map (application supplied)', "excluded: bodies are the application's"),
+    ('config.max_body_size / max_memfile_size', 'covered only as trigger of map1 (C13 owns the limits)'),
+    ('config.allow_x_script_name + X-Script-Name', 'covered by xsn_cfg / xsn (also sent when the option is off)'),
+    ('config.app_name_header + client sending that header', 'covered by app_hdr / xapp'),
+    ('config.domain_map (PATH_INFO prefix, environ[app_name_header])', "covered by dmap='fixed'/'fromhost' on 404 and crit errhandler"),
+    ('Ombott.wsgi last-resort page, debug off/on', 'covered by crit (five triggers) x debug'),
+    ('Ombott.wsgi HEAD / no-body statuses', "covered by method='HEAD' (page, crit, seq); 1xx/204/304 are not error pages"),
+    ('Ombott._handle 400 undecodable path (request re-initialised, F11)', 'covered by 400path, errhandler400, also inside seq'),
+    ('Ombott._handle 500', 'covered by crash'), ('Ombott._cast 500 x3', 'covered by unhandled / type / loops'),
+    ('Ombott.handler 404 / 405', 'covered by 404 / 405'),
+    ('Ombott._cast ordinary outputs (str, bytes, empty, lists, generators, files, file_wrapper, close)',
+     "covered as ordinary traffic between error requests (seq noise kind 'ok', 13 variants)"),
+    ('request.is_json_requested (cached in environ)', 'covered by accept variants; primed before routing by prime=True'),
+    ('request.url / urlparts / fullpath / script_name / path (cached in environ)', 'covered; read before routing by prime=True; '
+     'Host, X-Forwarded-Host, X-Forwarded-Proto, SCRIPT_NAME, SERVER_NAME/PORT incl. 443/https and non-default ports, '
+     'missing QUERY_STRING / SERVER_NAME / SERVER_PORT / wsgi.url_scheme / SCRIPT_NAME (drop)'),
+    ('common_helpers.html_escape', 'covered by crit and prim html_escape'),
+    ('html.escape / repr / json.dumps', 'covered by page and by the prim stream'),
+    ('HTTPError objects shared through DefaultConfig.errors_map (class level)', 'covered by seq with napps=2 and repeated map kinds'),
+    ('threads (Response/Request thread-local state, _html_lns filled concurrently)', 'excluded: C08 owns concurrency'),
+    ('HTTPError raised by the application (abort, static_file)', "excluded: status and body are the application's (one "
+     "variant runs as ordinary traffic: okvar='abort_gen')"),
 ]
 
 KINDS = ['404', '405', '400path', 'map0', 'map1', 'map2', 'crash', 'unhandled', 'type', 'loops']
@@ -239,7 +289,7 @@ def _make_app(case):
             return g()
         if v == 'gen_empty':
             return iter([''])
-        if v == 'file':
+        if v in ('file', 'filew'):
             return io.BytesIO(b'ok')
         if v == 'closeiter':
             class It:
@@ -341,6 +391,8 @@ def _environ(case):
             env[ek] = case[k]
     if case.get('xapp') is not None and case.get('app_hdr'):
         env[case['app_hdr']] = case['xapp']        # the client sends the header the application reads its name from
+    if case.get('okvar') == 'filew':
+        env['wsgi.file_wrapper'] = lambda f, *a: [f.read()]
     for k in case.get('drop') or []:
         env.pop(k, None)
     if case['t'] == 'page' and case['kind'] == 'map1':
@@ -557,7 +609,9 @@ def _cov_setup():
                                 if isinstance(sub, ast.stmt) and not (
                                         isinstance(sub, ast.Expr) and isinstance(sub.value, ast.Constant)
                                         and isinstance(sub.value.value, str)):
-                                    body_lines.add(sub.lineno)
+                                    # a compound statement is reached when its (possibly multi-line) test is
+                                    body_lines.add(sub.test.lineno if isinstance(sub, (ast.If, ast.While))
+                                                   else sub.lineno)
                         lines[q] = body_lines
         visit(tree, '')
         want[path] = lines
@@ -1006,6 +1060,7 @@ def corpus():
     ]
     for v in OKVARS:
         out.append(seq([step('404', 'u', Q, accept=J), step('ok', 'u', okvar=v), step('404', 'u', Q)]))
+    out.append(seq([step('ok', 'u', okvar='closeiter', method='HEAD'), step('404', 'u', Q, method='HEAD'), step('404', 'u', Q)]))
     out += [
         prim('escape', '&<>"\''), prim('html_escape', '&<>"\''), prim('escape', '&amp;&&lt;'), prim('html_escape', ''),
         prim('repr', ''), prim('repr', "'"), prim('repr', '"'), prim('repr', '\'"'), prim('repr', '\\\n\r\t\x00\x1f\x7f'),
@@ -1074,7 +1129,8 @@ def _gen_request(rng, c):
 
 HEAD_OK = {'404', '400path', 'map0', 'crash', 'unhandled', 'type', 'loops'}
 DROPPABLE = ['QUERY_STRING', 'SERVER_NAME', 'SERVER_PORT', 'wsgi.url_scheme', 'SCRIPT_NAME']
-OKVARS = ['str', 'bytes', 'empty', 'list', 'liststr', 'gen', 'gen_empty', 'file', 'closeiter', 'abort_gen', 'json_ct', 'cookie']
+OKVARS = ['str', 'bytes', 'empty', 'list', 'liststr', 'gen', 'gen_empty', 'file', 'filew', 'closeiter', 'abort_gen', 'json_ct',
+          'cookie']
 
 
 def _gen_app_opts(rng, c, allow_dmap=True):
